@@ -185,8 +185,8 @@ def solve_one(job):
     ver = 'z3-%s' % z3.get_version_string()
     res = dict(id=oid, status='unknown', backend=ver, time=0.0, model=None, reason='')
     try:
-        if relaxed:
-            r, _, _ = _z3_try(relaxed, min(timeout, 3000), {}, False)
+        for rel in ([relaxed] if isinstance(relaxed, str) else (relaxed or [])):
+            r, _, _ = _z3_try(rel, min(timeout, 6000), {}, False)
             if r == 'unsat':
                 res.update(status='unsat', backend=ver + ' (quantifier-free relaxation)', time=time.time() - t0)
                 return res
@@ -295,7 +295,7 @@ def hard_limit(job):
     if job[0] == 'cover':
         return 12
     # portfolio: relaxed 3s + full T + e-matching T/2 + cvc5 T + z3old T (+ process start-up), then slack
-    return 3 + 16 + job[2] / 1000.0 * 3.2 + 25
+    return 12 + 16 + job[2] / 1000.0 * 3.2 + 25
 
 
 def solve_all(jobs):
